@@ -291,7 +291,7 @@ def jobs(tier):
                 for neg in ((0, 2) if len(codes) < 5 else (0,)):
                     out.append(dict(func="int_types", params=dict(doc_type=doc, dest_kind="stream", negative=neg,
                                                                  codes=codes), weight=4 ** len(codes)))
-        for n in ((1, 3) if tier == "quick" else (1, 2, 3, 8, 20, 50)):
+        for n in ((1, 3, 17) if tier == "quick" else (1, 2, 3, 8, 17, 20, 50, 254)):      # 17: sub-index 0x10 and beyond
             out.append(dict(func="structure", params=dict(doc_type=doc, nmembers=n), weight=n))
         out.append(dict(func="destinations", params=dict(doc_type=doc)))
         out.append(dict(func="booleans", params=dict(doc_type=doc)))
